@@ -830,3 +830,31 @@ impl<T> Observer<T, ()> for EagerFinishedSink<T> {
   // reports finished after two items although nobody dropped the channel
   fn is_finished(&self) -> bool { self.sender.is_closed() || self.seen >= 2 }
 }
+
+// ---------------------------------------------------------------- C03.S8
+pub struct OffByOneTake<O> { observer: Option<O>, count: usize, hits: usize }
+impl<Item, Err, O: Observer<Item, Err>> Observer<Item, Err> for OffByOneTake<O> {
+  // lets count + 1 items through
+  fn next(&mut self, value: Item) {
+    if self.hits <= self.count {
+      if let Some(observer) = self.observer.as_mut() {
+        self.hits += 1;
+        observer.next(value);
+        if self.hits == self.count {
+          self.observer.take().unwrap().complete()
+        }
+      }
+    }
+  }
+  fn error(mut self, err: Err) {
+    if let Some(o) = self.observer.take() {
+      o.error(err)
+    }
+  }
+  fn complete(mut self) {
+    if let Some(o) = self.observer.take() {
+      o.complete()
+    }
+  }
+  fn is_finished(&self) -> bool { self.observer.as_ref().map_or(true, |o| o.is_finished()) }
+}
